@@ -34,7 +34,8 @@ CHECKS = {
               "walk; the checker (extracted) runs on every diagram the crate produces along random histories of all constructing "
               "operations, after a checked conversion of the kind() walk into cut form that fails unless the edges are simple ranges "
               "forming a sorted contiguous cover; the hand walk is compared with evaluate() at the cut values. Preservation of wf by "
-              "each model operation (reach_wf) is proved for the operations listed in evidence; the rest is monitored."),
+              "each model operation (reach_wf) is proved for the operations listed in evidence; the rest is monitored."
+              " On ids: the view of a valid id shows one node whose children are valid ids of smaller rank, the recursive walk rebuilds exactly the diagram of the id, and choosing edges by hand along the views is evaluate; the derived order of the Variable enum (regenerated from the source) is the model's variable order."),
         design_ref='DESIGN.md section 7 / C20',
         technique='Coq proof of checker correctness + verified runtime monitor on every produced diagram + differential evaluation'),
     'C03': dict(
@@ -83,7 +84,8 @@ CHECKS = {
               "has a witness (exactness for independent variables); the python-version variant never consults its list because no diagram node is keyed by "
               "python_version (proved for every expression diagram, monitored on every dump), so it equals evaluate_extras. Tie: extracted functions vs the "
               "crate on the crate's dumps; negative verdicts are attacked by an exact region search replayed on evaluate(). Markers with an uninhabited "
-              "string range are the known finding F10b (over-approximation stays sound there)."),
+              "string range are the known finding F10b (over-approximation stays sound there)."
+              " On ids: the walks of evaluate_extras / evaluate_extras_and_python_version over kind() are the L1 evaluators on every valid id."),
         design_ref='DESIGN.md section 7 / C13',
         technique='Coq proof (any-edge traversal soundness/exactness) + differential correspondence + satisfiability search'),
     'C12': dict(
@@ -104,7 +106,8 @@ CHECKS = {
               "only, hence reproducible across runs; lexicographic products of such orders (Requirement's derived Ord) are again total orders "
               "consistent with equality. Tie: extracted m_cmp vs MarkerTree::cmp on pairs of dumps; ==, cmp, hash coherence, antisymmetry and "
               "transitivity on the crate; same sort order in a second process with a different history; Requirement / VerbatimUrl pairs "
-              "(url ordering itself is the url crate's and is assumed coherent)."),
+              "(url ordering itself is the url crate's and is assumed coherent)."
+              " The crate's Ord is modelled as the walk over kind() of two ids it is (CmpModel) and proved to be m_cmp of the diagrams: Eq exactly for the same id, antisymmetric, transitive, unchanged by later interning; the replay compares the extracted walk with MarkerTree::cmp."),
         design_ref='DESIGN.md section 7 / C16',
         technique='Coq proof (total order by induction on diagrams via head comparison) + differential correspondence + cross-process sort'),
     'C14': dict(
@@ -117,7 +120,8 @@ CHECKS = {
               "complexify on ids are not modelled at L2 (tied by the step-wise correspondence). Tie: raw ids through the "
               "cfg(pep508_rs_verif) hook (id equality <=> equal dumps, id^1 <=> negation, complement bit = model prediction, no new nodes on repetition); "
               "fresh-process runs of the same program alone / after warm-ups / after the same versions under other spellings / permuted, comparing "
-              "raw dumps, Display, DNF, evaluate, ==/cmp/hash."),
+              "raw dumps, Display, DNF, evaluate, ==/cmp/hash."
+              " The id-for-id replay also compares, on the final store, evaluate / evaluate_extras / cmp / is_disjoint with the extracted walks on ids, and runs every program after several kinds of warm-up (other spellings, deprecated keys, other extras sets, one comparison of every kind)."),
         design_ref='DESIGN.md section 7 / C14',
         technique='Coq proof (hash-consing store invariant, injectivity of unfolding, refinement of programs) + hook-based id correspondence + cross-history differential'),
     'C15': dict(
@@ -139,7 +143,8 @@ CHECKS = {
               "in both directions, extras by normalised membership). The text-to-syntax step is proved too (C01_text_accept / C01_text_eval): every marker text derivable "
               "from the grammar, with any optional white space, redundant parentheses, either quote and operand order, parses to the syntax tree of its derivation; "
               "deprecated spellings are entries of the keyword table (read from the crate at run time). Tie: 3 layouts per tree must parse to the same marker, the five evaluation entry points "
-              "must agree, and evaluate() is compared with an independent Python reading, with the extracted sem508 and with the extracted model diagram."),
+              "must agree, and evaluate() is compared with an independent Python reading, with the extracted sem508 and with the extracted model diagram."
+              " Evaluation itself is modelled as the crate performs it, a walk over kind() on ids (EvalModel): on every valid id of every reachable store it equals the evaluation of the diagram, the fall-through after the edge loop is dead code, later interning changes nothing; the id-for-id replay compares the extracted walk with evaluate()."),
         design_ref='DESIGN.md section 7 / C01',
         technique='Coq proof (range semantics, rewrite correctness, induction over syntax) + differential correspondence + independent-reading oracle + theorems over the operator / keyword / accessor tables regenerated from the source on every run'),
     'C17': dict(
@@ -163,7 +168,8 @@ CHECKS = {
               "identical diagram, given that each printed comparison re-parses to itself (proved for string/in/contains/extra comparisons; PEP 440 version text is an oracle) - "
               "FALSE, deprecated spellings, === and arbitrary extras are the carve-outs. Tie: the extracted to_dnf vs the crate's to_dnf() clause for clause and the extracted "
               "show_marker vs the crate's Display text character for character on every marker of the run; the crate's clauses recompiled; Display / try_to_string / contents() / serde text "
-              "re-parsed to an == marker (FALSE and deprecated spellings: equivalent on final-release environments)."),
+              "re-parsed to an == marker (FALSE and deprecated spellings: equivalent on final-release environments)."
+              " to_dnf and Display walk kind() on ids: rebuilding the diagram from the views of a valid id gives the diagram of the id (KindWalk), so both are the modelled functions of that diagram."),
         design_ref='DESIGN.md section 7 / C05',
         technique='Coq proof (path decomposition, range-to-specifier lemmas, invariant of the simplifier loops) + differential correspondence of to_dnf + executed text round trips + theorems over the Display / negate tables regenerated from the source on every run'),
     'C06': dict(
